@@ -6,7 +6,9 @@ import (
 	"github.com/tuneinsight/lattigo/v6/ring"
 )
 
-// InitTestPolynomial takes a function g, and creates a test polynomial polynomial for the function in the interval [a, b].
+// InitTestPolynomial takes a function g, and creates a test polynomial polynomial for the function in the interval [a, b[.
+// The test polynomial has N coefficients for the N+1 grid points of [a, b]: the right end point b (normalized input 1, i.e.
+// rotation by X^{N/2}) evaluates to -g(a), which equals g(b) only if g(b) = -g(a) (e.g. functions odd around (a+b)/2).
 // Inputs to the blind rotation evaluation are assumed to have been normalized with the change of basis (2*x - a - b)/(b-a).
 // Interval [a, b] should take into account the "drift" of the value x, caused by the change of modulus from Q to 2N.
 func InitTestPolynomial(g func(x float64) (y float64), scale rlwe.Scale, ringQ *ring.Ring, a, b float64) (F ring.Poly) {
